@@ -220,8 +220,8 @@ prop("C15", [
     S(COAL, "^TestC15FirstSight$", kind="plain", q=40, t=1000),
     S(COAL, "^TestC15SameID$", kind="plain", race=True, q=100, t=2000),
     S(COAL, "^TestC15SameID$", kind="plain", q=300, t=20000),
-    S(COAL, "^TestC15Concurrent$", kind="plain", race=True, q=300, t=20000, timeout_t=3000),
-    S(COAL, "^TestC15Concurrent$", kind="plain", q=300, t=20000, timeout_t=3000),
+    S(COAL, "^TestC15Concurrent$", kind="plain", race=True, q=300, t=10000, timeout_t=3000),
+    S(COAL, "^TestC15Concurrent$", kind="plain", q=300, t=10000, timeout_t=3000),
 ], ["events are compared as deep copies with warnings by text; nil and empty containers are not distinguished",
     "ResolveIDs is meant to change the event it is given; that event's snapshot is refreshed, all others must stay equal"],
    nontrivial_classes=["history-with-repeated-coalescing-of-stateful-group", "history-with-2-live-events", "concurrent-round", "first-sight-round", "cache-churn", "table-isolation-sweep"])
